@@ -379,4 +379,86 @@ def r13_premises(ctx):
     ctx.borrow(c16.r16_3, 'R13.0')
 
 
-RULES = [('R13-iter', r13_iter), ('R13-units', r13_units), ('R13-play', r13_play), ('R13.0', r13_premises)]
+def r13_length_layouts(ctx):
+    """length is the cumulative time of the last message of the iteration - wherever the tempo changes sit.  The tempo map of
+    a type 1 file is the merge of ALL tracks: a set_tempo in the second or third track, behind an empty first track, or in
+    several tracks at once applies to the deltas after it exactly as in iteration.  Concrete small files (the merge has to
+    order the events), each decided by interpreting __iter__ and length on the same contents and comparing both with the
+    tempo-map integral computed here."""
+    ai = smf.make_interp(ctx)
+    cls = ctx.p.cls(MF, 'MidiFile')
+    o, it = ctx.p.lookup_method(cls, '__iter__')
+    o, ln = ctx.p.lookup_method(cls, 'length')
+    if it is None or ln is None:
+        raise AnalysisError('MidiFile.__iter__/length not found')
+    ctx.fn(it)
+    ctx.fn(ln)
+
+    def build(spec):
+        out = []
+        for kind, delta, val in spec:
+            if kind == 'n':
+                m = wire.make_message(ctx, 'note_on', {'channel': 0, 'note': val, 'velocity': 64}, None)
+                m.attrs['time'] = delta
+            elif kind == 't':
+                m = wire.make_meta(ai, ctx, 'set_tempo', {'tempo': val}, delta)
+            else:
+                m = wire.make_meta(ai, ctx, 'end_of_track', {}, delta)
+            m.stores.clear()
+            out.append(m)
+        return AList(out, 'MidiTrack')
+
+    def integral(tracks, tpb):
+        ev = []
+        for ti, tr in enumerate(tracks):
+            now = 0
+            for mi, (kind, delta, val) in enumerate(tr):
+                now += delta
+                if kind != 'e':
+                    ev.append((now, ti, mi, kind, val))
+        end = max([sum(d for _, d, _ in tr) for tr in tracks] or [0])
+        ev.sort(key=lambda e: e[0])         # stable: ties in track order, then in-track order
+        tempo, last, tot = 500000, 0, 0.0
+        for now, ti, mi, kind, val in ev + [(end, 0, 0, 'e', None)]:
+            tot += (now - last) * tempo * 1e-6 / tpb
+            last = now
+            if kind == 't':
+                tempo = val
+        return tot
+
+    layouts = {
+        'set_tempo in the second track only': [[('n', 10, 1), ('e', 40, None)], [('t', 4, 250000), ('n', 20, 2), ('e', 0, None)]],
+        'set_tempo in the third track, first track empty': [[], [('n', 30, 1), ('e', 0, None)], [('t', 10, 1000000), ('e', 0, None)]],
+        'set_tempo in the first and in the second track': [[('t', 5, 250000), ('n', 30, 1), ('e', 0, None)], [('n', 2, 2), ('t', 18, 750000), ('e', 40, None)]],
+        'set_tempo in the first track only, longest track is the second': [[('t', 8, 200000), ('e', 0, None)], [('n', 60, 1), ('e', 4, None)]],
+        'no set_tempo at all, two tracks': [[('n', 7, 1), ('e', 0, None)], [('n', 3, 2), ('e', 30, None)]],
+        'one track whose set_tempo comes last': [[('n', 12, 1), ('t', 12, 100000), ('e', 0, None)]],
+    }
+    n = 0
+    for name, tracks in layouts.items():
+        for type_ in ((0, 1) if len(tracks) == 1 else (1,)):
+            mk = lambda: _file(ctx, ai, type_, AList([build(t) for t in tracks], 'list'), 100)      # noqa: E731
+            outs = ai.explore(lambda: ai.call_function(it, [mk()], {}))
+            outs2 = ai.explore(lambda: ai.call_function(ln, [mk()], {}))
+            n += 1
+            want = integral(tracks, 100)
+            inst = f'length[{name}, type {type_}]'
+            if len(outs) != 1 or outs[0].kind != 'return' or not isinstance(outs[0].value, AList):
+                ctx.fail('R13.6', inst, ctx.where(it), f'iteration does not complete on one path: {outs}', construct=f'{it.qname}::layout-outcomes')
+                continue
+            times = [_as_poly(x.attrs.get('time')) if isinstance(x, AObj) else None for x in outs[0].value.items]
+            cum = Poly()
+            for t in times:
+                cum = cum.add(t) if t is not None else cum
+            ok_it = all(t is not None for t in times) and cum.close_to(Poly.const(want))
+            ctx.require(ok_it, 'R13.6', f'{inst}.iteration', ctx.where(it),
+                        f'the yielded times add up to {cum!r}; the tempo map of all tracks gives {want!r}', construct=f'{it.qname}::layout-sum')
+            got = _as_poly(outs2[0].value) if len(outs2) == 1 and outs2[0].kind == 'return' else None
+            ctx.require(got is not None and got.close_to(Poly.const(want)), 'R13.6', inst, ctx.where(ln),
+                        f'length is {outs2}; the cumulative time of the last message is {want!r}', construct=f'{ln.qname}::layout-length')
+    ctx.floor('R13.6', n, 7)
+    for q in ai.inlined:
+        ctx.functions.add(q)
+
+
+RULES = [('R13.6', r13_length_layouts), ('R13-iter', r13_iter), ('R13-units', r13_units), ('R13-play', r13_play), ('R13.0', r13_premises)]
